@@ -1200,6 +1200,56 @@ func c10H3raw(r *Run, rep *core.Report) {
 				raw = in
 			}
 		})
+		// ... or the key's address handed, as an unsafe.Pointer, to an in-package helper that reads through it
+		// (loadWord(unsafe.Pointer(&key), size)): the helper's result is the key's raw bits all the same. The runtime's
+		// own hash primitives have no body here and are judged by H2 / the byte-hash rule.
+		if raw == nil {
+			core.Instrs(f, func(in ssa.Instruction) {
+				c, ok := in.(*ssa.Call)
+				if !ok || raw != nil {
+					return
+				}
+				cal := core.Callee(c)
+				if cal == nil || cal.Blocks == nil || cal.Pkg != r.P.Xsync {
+					return
+				}
+				for ai, a := range c.Call.Args {
+					cv, isCv := a.(*ssa.Convert)
+					if !isCv {
+						continue
+					}
+					if bt, isB := cv.Type().Underlying().(*types.Basic); !isB || bt.Kind() != types.UnsafePointer {
+						continue
+					}
+					cell, isCell := core.StripConv(cv.X).(*ssa.Alloc)
+					if !isCell {
+						continue
+					}
+					st := uniqueStore(cell)
+					if st == nil || st.Val != ssa.Value(f.Params[0]) || ai >= len(cal.Params) {
+						continue
+					}
+					// the helper dereferences the pointer as a number
+					reads := false
+					core.Instrs(cal, func(in2 ssa.Instruction) {
+						ld, isLd := in2.(*ssa.UnOp)
+						if !isLd || ld.Op != token.MUL {
+							return
+						}
+						cv2, isCv2 := ld.X.(*ssa.Convert)
+						if !isCv2 || core.StripConv(cv2.X) != ssa.Value(cal.Params[ai]) {
+							return
+						}
+						if bt, isB := elemOf(cv2.Type()).Underlying().(*types.Basic); isB && bt.Info()&(types.IsInteger|types.IsFloat|types.IsComplex|types.IsBoolean) != 0 {
+							reads = true
+						}
+					})
+					if reads {
+						raw = in
+					}
+				}
+			})
+		}
 		if raw == nil {
 			continue
 		}
